@@ -1,1 +1,46 @@
-// harness bodies for h2 src/frame/ping.rs (compiled in-crate as `verif_h`, feature "verif")
+// harness bodies for h2 src/frame/ping.rs
+use super::*;
+use crate::frame::head::verif_h::ref_parse_head;
+
+/// C12.rt[ping] + C09.frame[ping]: load on arbitrary head/payload, then
+/// encode -> reference parser -> load.
+pub fn c12_rt_ping() {
+    let flags: u8 = kani::any();
+    let sid: u32 = kani::any();
+    kani::assume(sid <= 0x7fff_ffff);
+    let bytes: [u8; 10] = kani::any();
+    let n: usize = kani::any();
+    kani::assume(n <= 10);
+    let head = Head::new(Kind::Ping, flags, StreamId::from(sid));
+    let r = Ping::load(head, &bytes[..n]);
+    match &r {
+        Ok(p) => {
+            assert!(sid == 0, "PING on a non-zero stream accepted");
+            assert!(n == 8, "PING with length != 8 accepted");
+            assert!(p.is_ack() == (flags & 1 == 1));
+            let mut i = 0;
+            while i < 8 {
+                assert!(p.payload()[i] == bytes[i], "payload byte");
+                i += 1;
+            }
+            let mut out = [0u8; 17];
+            let mut dst = &mut out[..];
+            p.encode(&mut dst);
+            assert!(dst.len() == 0, "PING must encode to 17 bytes");
+            let mut hb = [0u8; 9];
+            hb.copy_from_slice(&out[..9]);
+            let (l, t, f, r, s) = ref_parse_head(&hb);
+            assert!(l == 8 && t == 6 && s == 0 && !r, "PING head on the wire");
+            assert!(f == (flags & 1), "PING flags on the wire");
+            let q = Ping::load(Head::parse(&out[..9]), &out[9..]).unwrap();
+            assert!(q == *p, "PING round trip");
+        }
+        Err(e) => {
+            assert!(sid != 0 || n != 8, "legal PING rejected");
+            assert!(*e == if sid != 0 { Error::InvalidStreamId } else { Error::BadFrameSize });
+        }
+    }
+    kani::cover!(r.is_ok(), "ok");
+    kani::cover!(r.is_err(), "err");
+    kani::cover!(true, "end");
+}
